@@ -351,6 +351,10 @@ def poly_pool(tier):
         out.append(p.Sum((p.Power(u, 2), p.Product((-1, u, u)))))
         out.append(p.Product((x, p.Sum((3, -3)), u)))
         out.append(p.Product((p.Sum((u, 1)), p.Sum((u, -1)))))
+    # like terms written differently: a power of a power of a plain variable, split powers, against the plain monomial
+    for n, m in ((2, 3), (3, 2), (2, 2), (1, 3), (2, 1), (0, 3), (3, 0)):
+        out += [p.Sum((p.Power(p.Power(x, n), m), p.Product((-1, p.Power(x, n * m))))), p.Sum((p.Power(p.Power(x, n), m), p.Power(x, n * m), y)),
+                p.Product((p.Power(p.Power(y, n), m), x)), p.Sum((p.Product((p.Power(x, n), p.Power(x, m))), p.Product((-1, p.Power(x, n + m)))))]
     return out
 
 
